@@ -568,6 +568,7 @@ class io_epoll_context::read_sender {
         if constexpr (is_stop_ever_possible) {
           stopCallback_.construct(
               get_stop_token(receiver_), cancel_callback{*this});
+          stopCallbackConstructed_ = true;
         }
         return;
       }
@@ -609,7 +610,7 @@ class io_epoll_context::read_sender {
 
       UNIFEX_ASSERT(static_cast<completion_base&>(self).enqueued_.load() == 0);
 
-      self.stopCallback_.destruct();
+      self.destroy_stop_callback();
 
       auto oldState = self.state_.fetch_add(
           io_epoll_context::read_sender::operation<Receiver>::io_flag,
@@ -659,6 +660,11 @@ class io_epoll_context::read_sender {
       if (static_cast<completion_base&>(self).enqueued_.load() == 0) {
         // Avoid instantiating set_done() if we're not going to call it.
         if constexpr (is_stop_ever_possible) {
+          // Deregister the stop callback before completing: the thread that
+          // requested stop may still be inside the callback machinery and
+          // would otherwise write into this operation after the receiver
+          // has destroyed it.
+          self.destroy_stop_callback();
           unifex::set_done(std::move(self.receiver_));
         } else {
           // This should never be called if stop is not possible.
@@ -703,6 +709,16 @@ class io_epoll_context::read_sender {
     manual_lifetime<typename stop_token_type_t<
         Receiver>::template callback_type<cancel_callback>>
         stopCallback_;
+    // Only touched on the I/O thread.
+    bool stopCallbackConstructed_ = false;
+
+    void destroy_stop_callback() noexcept {
+      if (stopCallbackConstructed_) {
+        stopCallbackConstructed_ = false;
+        stopCallback_.destruct();
+      }
+    }
+
     static constexpr std::uint32_t io_flag = 0x00010000;
     static constexpr std::uint32_t io_mask = 0xFFFF0000;
     static constexpr std::uint32_t cancel_pending_flag = 1;
@@ -798,6 +814,7 @@ class io_epoll_context::write_sender {
         if constexpr (is_stop_ever_possible) {
           stopCallback_.construct(
               get_stop_token(receiver_), cancel_callback{*this});
+          stopCallbackConstructed_ = true;
         }
         return;
       }
@@ -839,7 +856,7 @@ class io_epoll_context::write_sender {
 
       UNIFEX_ASSERT(static_cast<completion_base&>(self).enqueued_.load() == 0);
 
-      self.stopCallback_.destruct();
+      self.destroy_stop_callback();
 
       epoll_event event = {};
       (void)epoll_ctl(
@@ -889,6 +906,11 @@ class io_epoll_context::write_sender {
       if (static_cast<completion_base&>(self).enqueued_.load() == 0) {
         // Avoid instantiating set_done() if we're not going to call it.
         if constexpr (is_stop_ever_possible) {
+          // Deregister the stop callback before completing: the thread that
+          // requested stop may still be inside the callback machinery and
+          // would otherwise write into this operation after the receiver
+          // has destroyed it.
+          self.destroy_stop_callback();
           unifex::set_done(std::move(self.receiver_));
         } else {
           // This should never be called if stop is not possible.
@@ -933,6 +955,16 @@ class io_epoll_context::write_sender {
     manual_lifetime<typename stop_token_type_t<
         Receiver>::template callback_type<cancel_callback>>
         stopCallback_;
+    // Only touched on the I/O thread.
+    bool stopCallbackConstructed_ = false;
+
+    void destroy_stop_callback() noexcept {
+      if (stopCallbackConstructed_) {
+        stopCallbackConstructed_ = false;
+        stopCallback_.destruct();
+      }
+    }
+
     static constexpr std::uint32_t io_flag = 0x00010000;
     static constexpr std::uint32_t io_mask = 0xFFFF0000;
     static constexpr std::uint32_t cancel_pending_flag = 1;
